@@ -26,8 +26,16 @@
 use log::debug;
 use num_traits::bounds::Bounded;
 use std::collections::BinaryHeap;
-use std::sync::{Arc, Condvar, Mutex};
-use std::{fmt, thread, time};
+#[cfg(feature = "verif")]
+use crate::verif::sync::{Condvar, Mutex};
+#[cfg(feature = "verif")]
+use crate::verif::thread;
+use std::sync::Arc;
+#[cfg(not(feature = "verif"))]
+use std::sync::{Condvar, Mutex};
+#[cfg(not(feature = "verif"))]
+use std::thread;
+use std::{fmt, time};
 
 /// Struct to hold the synchronization information for the parallel execution. It contains a mutex-ed SharedState object
 /// And a Candvar to allow worker threads to sleep-wait for new subproblems to solve.
@@ -214,6 +222,8 @@ fn worker<SubProblem: Ord + Send + fmt::Debug, Solution: Send, Score: Ord + Copy
             // Only consider this subproblem, if the parent node's solution was better then best solution known so
             // far. I.e. bound branch if score will be worse then best known feasible solution.
             if shared_state.best_result.is_none() || parent_score > shared_state.best_score {
+                #[cfg(feature = "verif")]
+                crate::verif::sched::note(format!("pop {:?} solve", subproblem));
                 shared_state.busy_threads += 1;
 
                 // Unlock shared_state and solve subproblem
@@ -280,6 +290,8 @@ fn worker<SubProblem: Ord + Send + fmt::Debug, Solution: Send, Score: Ord + Copy
                 }
             } else {
                 shared_state.statistics.num_bound_subproblems += 1;
+                #[cfg(feature = "verif")]
+                crate::verif::sched::note(format!("pop {:?} bound", subproblem));
                 debug!(
                     "Bounding this branch, since score {} is already worse then best known feasible solution: {:?}",
                     parent_score,
